@@ -146,6 +146,20 @@ M = [
  ("C11-eq-guards-merged-with-or", C + "consensus/transaction.rs",
   "                if self.from.len() < 3 {\n                    error!(\n                        \"Send bound transaction Invalid: fewer than 3 inputs, found {}.\",\n                        self.from.len()\n                    );\n                    return false;\n                }\n                //\n                // at least 3 output slips\n                //\n                if self.to.len() < 3 {\n                    error!(\n                        \"Send-bound transaction Invalid: fewer than 3 outputs, found {}.\",\n                        self.to.len()\n                    );\n                    return false;\n                }\n",
   "                let enough_slips = self.from.len() >= 3 && self.to.len() >= 3;\n                if !enough_slips {\n                    error!(\n                        \"Send bound transaction Invalid: fewer than 3 inputs or outputs, found {} / {}.\",\n                        self.from.len(),\n                        self.to.len()\n                    );\n                    return false;\n                }\n"),
+ ("C06-verify-block-either-matches", C + "verification_thread.rs",
+  "        if block.id != block_id || block.hash != block_hash {", "        if block.id != block_id && block.hash != block_hash {"),
+ ("C07-fee-tx-only-with-mining-payout", C + "consensus/block.rs",
+  "        if cv.fee_transaction.is_some() {\n            let mut fee_tx = cv.fee_transaction.unwrap();", "        if cv.fee_transaction.is_some() && cv.total_payout_mining > 0 {\n            let mut fee_tx = cv.fee_transaction.unwrap();"),
+ ("C02-fee-tx-count-not-checked", C + "consensus/block.rs",
+  "                    Some(ft_index) if cv.ft_num == 1 => ft_index,", "                    Some(ft_index) => ft_index,"),
+ ("C19-err-after-reservation", C + "consensus/transaction.rs",
+  "            for input in input_slips {\n                transaction.add_from_slip(input);\n            }\n            for output in output_slips {",
+  "            if input_slips.is_empty() {\n                return Err(Error::from(ErrorKind::NotFound));\n            }\n            for input in input_slips {\n                transaction.add_from_slip(input);\n            }\n            for output in output_slips {"),
+ ("C09-header-hash-fields-swapped", C + "msg/message.rs",
+  "                [block_hash.as_slice(), block_id.to_be_bytes().as_slice()].concat()", "                [block_id.to_be_bytes().as_slice(), block_hash.as_slice()].concat()"),
+ ("C18-eq-ordinal-step-in-match", C + "consensus/block.rs",
+  "            if let TransactionType::SPV = tx.transaction_type {\n                tx_index += tx.txs_replacements as u64;\n            } else {\n                tx_index += 1;\n            }",
+  "            tx_index += match tx.transaction_type {\n                TransactionType::SPV => tx.txs_replacements as u64,\n                _ => 1,\n            };"),
 ]
 
 def main():
